@@ -171,6 +171,20 @@ func c02Evaluate(ctx *vkit.Ctx, cs *vkit.Case, dir, what string, cands []*vexec.
 			break
 		}
 	}
+	// ... first across a plain restart (the deletions live in the log behind whatever recovery
+	// repaired or re-journaled), then across a compaction + restart
+	obsD := vexec.Observe(e, u)
+	e.Close()
+	e, err = engine.Open(vexec.Options(dir))
+	if err != nil {
+		closed = true
+		cs.Fail("%s: Open after post-recovery deletions failed: %v", what, err)
+	}
+	if d := vexec.Diff(obsD, vexec.Observe(e, u)); len(d) > 0 {
+		cs.Attach("diff", d)
+		cs.Attach("log_records", c13DumpLog(dir))
+		cs.Fail("%s: deletions after recovery did not survive a plain restart unchanged: %s", what, d[0])
+	}
 	preRewrite := c13DumpLog(dir)
 	if err := e.RewriteAOF(); err != nil {
 		cs.Fail("%s: RewriteAOF after recovery failed: %v", what, err)
